@@ -5,6 +5,8 @@ package engine
 // C19 — a stream is one forward cursor: peeks do not consume, nothing is skipped or repeated.
 
 import (
+	"time"
+	"io/fs"
 	"strings"
 	"bytes"
 	"context"
@@ -66,7 +68,29 @@ var (
 
 // VH_C19: inst = reader kind (0 bytes.Reader text, 1 chunked host reader text, 2 bytes.Reader binary,
 // 3 chunked host reader binary, 4 concrete multi-byte text). Source bytes symbolic, operations by case split.
+// c19File is an in-memory source that is a file (fs.File): the stream can ask it for its size.
+type c19File struct {
+	bytes.Reader
+	size int64
+}
+
+type c19Info struct{ size int64 }
+
+func (i c19Info) Name() string       { return "mem" }
+func (i c19Info) Size() int64        { return i.size }
+func (i c19Info) Mode() fs.FileMode  { return 0 }
+func (i c19Info) ModTime() time.Time { return time.Time{} }
+func (i c19Info) IsDir() bool        { return false }
+func (i c19Info) Sys() interface{}   { return nil }
+
+func (f *c19File) Stat() (fs.FileInfo, error) { return c19Info{f.size}, nil }
+func (f *c19File) Close() error               { return nil }
+
 func VH_C19(vm *VM, inst int, nops int) {
+	fileLike := inst >= 5 // 5: file-like text source, 6: file-like binary source
+	if fileLike {
+		inst = (inst - 5) * 2 // behaves as 0 / 2 with a source that knows its size
+	}
 	binary := inst == 2 || inst == 3
 	var data []byte
 	if inst == 4 {
@@ -88,6 +112,10 @@ func VH_C19(vm *VM, inst int, nops int) {
 			r.chunks = append(r.chunks, 1+choice("chunk", 2))
 		}
 		src = r
+	} else if fileLike {
+		f := &c19File{size: int64(len(data))}
+		f.Reader = *bytes.NewReader(data)
+		src = f
 	} else {
 		src = bytes.NewReader(data)
 	}
